@@ -165,6 +165,87 @@ func Hist(name string) *ref.History {
 			[]*ref.AEvent{ref.Q(1600000025, "db1", "DROP TABLE t2")})}}}
 	case "H8":
 		h = hist8(cfg)
+	case "H2m":
+		// H2 as a MariaDB 5.5 master with CRC32 writes it (checksum-aware since
+		// MariaDB 5.3; the version text is below MySQL's 5.6.1)
+		h2 := *Hist("H2")
+		c2 := cfg
+		c2.ServerVer = "5.5.68-MariaDB"
+		h = &ref.History{Cfg: c2}
+		for _, f := range h2.Files {
+			nf := &ref.File{Name: f.Name}
+			for _, e := range f.Events {
+				ne := *e
+				nf.Events = append(nf.Events, &ne)
+			}
+			h.Files = append(h.Files, nf)
+		}
+	case "H2q", "H18":
+		if name == "H18" {
+			// a DDL statement that does not commit (CREATE / DROP TEMPORARY TABLE)
+			// between the rows events of a transaction
+			h = &ref.History{Cfg: cfg, Files: []*ref.File{{Name: f1, Events: cat(
+				txInsert(1600000000, t, 21, 1, "alice"),
+				[]*ref.AEvent{ref.Q(1600000010, "db1", "BEGIN"), ref.TM(1600000010, t),
+					ref.R(1600000010, ref.RowWrite, t, ref.RowChange{After: row1(t, 2, "carol", 3)}),
+					ref.Q(1600000011, "db1", "CREATE TEMPORARY TABLE tmp1 (a int)"),
+					ref.TM(1600000011, t),
+					ref.R(1600000011, ref.RowUpdate, t, ref.RowChange{Before: row1(t, 2, "carol", 3), After: row1(t, 2, "dave", 4)}),
+					ref.Q(1600000012, "db1", "DROP TEMPORARY TABLE IF EXISTS `tmp1` /* generated by server */"),
+					ref.X(1600000012, 22)},
+				txDelete(1600000020, t, 23, 1, "alice"))}}}
+			break
+		}
+		// statements only (no rows events), two rotations, as a MariaDB 5.5 master
+		// with CRC32 writes them
+		c2 := cfg
+		c2.ServerVer = "5.5.68-MariaDB"
+		f3 := "mysql-bin.000003"
+		h = &ref.History{Cfg: c2, Files: []*ref.File{
+			{Name: f1, Events: []*ref.AEvent{ref.Q(1600000000, "db1", "CREATE TABLE a (x int)"), ref.Rot(1600000001, f2)}},
+			{Name: f2, Events: []*ref.AEvent{ref.Q(1600000010, "db1", "ALTER TABLE a ADD y int"), ref.Rot(1600000011, f3)}},
+			{Name: f3, Events: []*ref.AEvent{ref.Q(1600000020, "db1", "DROP TABLE a"), ref.Q(1600000021, "db1", "CREATE TABLE b (x int)")}}}}
+	case "H15", "H15w":
+		// a JSON document holding, inside an array, an opaque value the decoder
+		// does not render (BIT): the stream must end with an error. H15: in the
+		// before image of an UPDATE; H15w: in a WRITE rows event
+		tj := &ref.Table{ID: 131, DB: "db1", Name: "tjson", Flags: 1, Cols: []ref.Column{ref.ColInt(ref.TLong, "id", false), ref.ColJSON("doc", 4)}}
+		badDoc := ref.Cell{Raw: ref.JSONAppendCell(nil, ref.JObj([]string{"b"}, []*ref.JDoc{ref.JArr(ref.JI(1), ref.JOpq(ref.TBit, "\x01\x02"))}), ref.JSONNatural)}
+		okDoc := ref.Cell{Raw: ref.JSONAppendCell(nil, ref.JObj([]string{"b"}, []*ref.JDoc{ref.JI(1)}), ref.JSONNatural), Text: []byte("JSON_OBJECT('b',1)")}
+		var bad *ref.AEvent
+		if name == "H15" {
+			bad = ref.R(1600000012, ref.RowUpdate, tj, ref.RowChange{Before: ref.Image{ref.VInt(ref.TLong, 1, false), badDoc}, After: ref.Image{ref.VInt(ref.TLong, 1, false), okDoc}})
+		} else {
+			bad = ref.R(1600000012, ref.RowWrite, tj, ref.RowChange{After: ref.Image{ref.VInt(ref.TLong, 1, false), badDoc}})
+		}
+		bad.Bad = true
+		h = &ref.History{Cfg: cfg, Files: []*ref.File{{Name: f1, Events: cat(
+			txInsert(1600000000, t, 21, 1, "alice"),
+			[]*ref.AEvent{ref.Q(1600000010, "db1", "BEGIN"), ref.TM(1600000010, tj), bad, ref.X(1600000013, 22)},
+			txDelete(1600000020, t, 23, 1, "alice"))}}}
+	case "H16":
+		// a statement that announces two tables and changes only one of them
+		// (UPDATE ... JOIN, a trigger, a cascade): the second table has no rows
+		t2 := &ref.Table{ID: 132, DB: "db1", Name: "customers", Flags: 1, Cols: []ref.Column{ref.ColInt(ref.TLong, "cid", false)}}
+		h = &ref.History{Cfg: cfg, Files: []*ref.File{{Name: f1, Events: cat(
+			[]*ref.AEvent{ref.Q(1600000000, "db1", "BEGIN"), ref.TM(1600000000, t), ref.TM(1600000000, t2),
+				ref.R(1600000000, ref.RowWrite, t, ref.RowChange{After: row1(t, 1, "alice", 200)}), ref.X(1600000001, 21)},
+			txDelete(1600000020, t, 23, 1, "alice"))}}}
+	case "H17":
+		// statements of sessions with different character sets, and a byte value
+		// with NUL bytes inside (a handler that serialises what it gets)
+		tbn := &ref.Table{ID: 133, DB: "db1", Name: "tokens", Flags: 1, Cols: []ref.Column{ref.ColInt(ref.TLong, "id", false), ref.ColVarchar("token", 40), ref.ColBlob("raw", 2)}}
+		rowN := func(id int64, s string) ref.Image {
+			return ref.Image{ref.VInt(ref.TLong, id, false), ref.VVarchar(40, []byte(s)), ref.VBlob(2, []byte("\x00"+s+"\x00\x00z"))}
+		}
+		h = &ref.History{Cfg: cfg, Files: []*ref.File{{Name: f1, Events: cat(
+			[]*ref.AEvent{ref.Q(1600000000, "db1", "CREATE TABLE tokens (id int)", ref.CharsetVar(33, 33, 33))},
+			[]*ref.AEvent{ref.Q(1600000005, "db1", "BEGIN", ref.CharsetVar(8, 8, 33)), ref.TM(1600000005, tbn),
+				ref.R(1600000005, ref.RowWrite, tbn, ref.RowChange{After: rowN(1, "plain-text")}, ref.RowChange{After: rowN(2, "ab\x00cd")}),
+				ref.X(1600000006, 31)},
+			[]*ref.AEvent{ref.Q(1600000010, "db1", "ALTER TABLE tokens ADD c int", ref.CharsetVar(45, 45, 33))},
+			[]*ref.AEvent{ref.Q(1600000015, "db1", "BEGIN"), ref.TM(1600000015, tbn),
+				ref.R(1600000015, ref.RowDelete, tbn, ref.RowChange{Before: rowN(2, "ab\x00cd")}), ref.Q(1600000016, "db1", "COMMIT", ref.CharsetVar(255, 255, 255))})}}}
 	case "H13":
 		// the first file ends with a STOP event (the master was shut down): the
 		// next file is announced by the artificial ROTATE only; the second file
